@@ -535,6 +535,16 @@ template <class T> inline std::string jarr(const std::vector<T> &v) {
   return s + "]";
 }
 
+// size of one component of a data type: the harness's own table (the library's DataTypeLength is part of what is being checked)
+inline int own_type_size(DataType dt) {
+  switch (dt) {
+    case DT_INT8: case DT_UINT8: case DT_BOOL: return 1;
+    case DT_INT16: case DT_UINT16: return 2;
+    case DT_INT32: case DT_UINT32: case DT_FLOAT32: return 4;
+    case DT_INT64: case DT_UINT64: case DT_FLOAT64: return 8;
+    default: return -1;
+  }
+}
 // structural-validity facts of a decoded geometry, read through public accessors only
 inline std::string struct_json(const PointCloud &pc, bool is_mesh) {
   // TLC integers are 32-bit: counts above 2^30 (a stream may declare 2^31 points and no attribute) are compressed by a map that keeps every
@@ -560,7 +570,7 @@ inline std::string struct_json(const PointCloud &pc, bool is_mesh) {
     const long bufbytes = std::min<long>(att->buffer() ? (long)att->buffer()->data_size() : 0, CAP);
     if (a) s += ",";
     s += "[" + std::to_string(size) + "," + std::to_string(maxmap_c) + "," + std::to_string(bufbytes) + "," + std::to_string((int)att->num_components()) + "," +
-         std::to_string(DataTypeLength(att->data_type())) + "," + (att->is_mapping_identity() ? "1" : "0") + "," + std::to_string((long)att->byte_stride()) + "," +
+         std::to_string(own_type_size(att->data_type())) + "," + (att->is_mapping_identity() ? "1" : "0") + "," + std::to_string((long)att->byte_stride()) + "," +
          std::to_string((long)att->byte_offset()) + "]";
   }
   return s + "]}";
